@@ -24,6 +24,14 @@ class Infra(Exception):
     """Trouble of the tooling (not of the system under test): exit status 2."""
 
 
+class SutCrashed(Exception):
+    """The system under test (which runs inside the harness process) crashed: a candidate violation
+    has been registered; the check ends with whatever it has."""
+
+
+CURRENT = None
+
+
 class TLCResult:
     def __init__(self):
         self.generated = 0
@@ -61,6 +69,8 @@ class Run:
         self.tlc_runs = []
         self._n = 0
         self._lock = threading.Lock()
+        global CURRENT
+        CURRENT = self
 
     # ---------------------------------------------------------------- scratch
     def path(self, name):
@@ -122,8 +132,20 @@ class Run:
         finally:
             shutil.rmtree(sock, ignore_errors=True)
         if check and p.returncode != 0:
-            raise Infra("harness driver %s failed (%d):\n%s\n%s" % (driver, p.returncode, p.stdout[-2000:], p.stderr[-4000:]))
+            self.driver_failed("driver %s %s" % (driver, " ".join(str(a) for a in args)[:300]), p.stderr + "\n" + p.stdout[-1000:])
         return p
+
+    def driver_failed(self, what, stderr, sig=None):
+        """A harness driver ended abnormally: a crash of the repository's code is a candidate
+        violation ("the server never crashes"), anything else is trouble of the tooling."""
+        crash = go_crash(stderr)
+        if crash:
+            s = {"mkind": "ProcessCrash", "where": crash.split("  at ")[-1][:120]}
+            s.update(sig or {})
+            self.candidate("ProcessCrash", "the process running the real code died during %s: %s" % (what, crash), sig=s,
+                           detail={"stderr": (stderr or "")[-4000:]})
+            raise SutCrashed(what)
+        raise Infra("%s failed:\n%s" % (what, (stderr or "")[-3000:]))
 
     def _next(self):
         with self._lock:
@@ -263,6 +285,25 @@ class Run:
         return 1 if printed else 0
 
 
+def go_crash(stderr):
+    """If the text is the death of a Go process with a frame of the repository in the crashing
+    goroutine's stack, returns a short description (the system under test runs inside the harness
+    process, so its crash takes the driver down); otherwise None."""
+    if not stderr:
+        return None
+    m = re.search(r"^(panic: .*|fatal error: .*)$", stderr, re.M)
+    if not m:
+        return None
+    tail = stderr[m.start():m.start() + 6000]
+    first = tail.split("\n\ngoroutine", 2)
+    stack = tail if len(first) < 2 else first[0] + "\n\ngoroutine" + first[1]
+    rp = os.path.realpath(REPO)
+    frames = [l.strip() for l in stack.splitlines() if ("/repo/" in l or rp + "/" in l) and ".go:" in l]
+    if not frames:
+        return None
+    return "%s  at %s" % (m.group(1)[:200], "; ".join(f.split(" +")[0].replace(rp + "/", "").replace("/repo/", "") for f in frames[:4]))
+
+
 def load_known():
     p = os.path.join(VERIF, "known_findings.json")
     if not os.path.exists(p):
@@ -313,6 +354,8 @@ def main_wrapper(fn):
     """Runs a check function, mapping Infra trouble to exit status 2."""
     try:
         rc = fn()
+    except SutCrashed:
+        rc = CURRENT.finish()
     except Infra as e:
         print("INFRA-ERROR:", e, flush=True)
         sys.exit(2)
